@@ -93,6 +93,13 @@ def handle (j : Json) : Except String Json := do
     let all ← (← getArr j "all").toList.mapM entryOfJson
     let res ← (← getArr j "res").toList.mapM entryOfJson
     return Json.mkObj [("isTopK", toJson (isTopKB leI k all res))]
+  | "totrials" =>
+    -- `best_candidates_to_trials` on rows given as (candidate ids of the row, reward key)
+    let rows ← (← getArr j "rows").toList.mapM fun r => do
+      let ids ← (← getArr r "ids").toList.mapM fun x => fromJson? (α := Nat) x
+      return (⟨ids, ← getInt r "r"⟩ : Entry (List Nat) Int)
+    let ts := toTrials leI (fun n : Nat => n) rows
+    return Json.mkObj [("trials", toJson (ts.map fun t => Json.mkObj [("id", toJson t.1), ("r", toJson t.2)]).toArray)]
   | "witness" =>
     -- the data of `c19_not_worse_than_prior_counterexample`, both variants
     let S : Strategy Unit Unit Nat Nat :=
